@@ -56,6 +56,7 @@ func runC18(r *Run) {
 	c18ChanShared(r)
 	c18CancelWithUnaryInFlight(r)
 	c18BlockedWriteThenCancel(r)
+	c18ConcurrentCancel(r)
 	c18ReadTimeout(r)
 }
 
